@@ -102,6 +102,51 @@ def _sig(kind, name, ns, params, ret, pure):
     return {'kind': kind, 'name': name, 'ns': ns, 'params': params, 'ret': ret, 'pure': pure}
 
 
+COST_LIMIT = 120
+
+
+def _calls_in(e):
+    """callee names in an expression; an attribute read counts as the derived attribute of that name (if any)"""
+    if isinstance(e, list) and e:
+        if e[0] in ('callf', 'calln', 'callo'):
+            yield e[1] if e[0] == 'callf' else e[2]
+        elif e[0] == 'attr' and isinstance(e[2], str):
+            yield e[2]
+        for x in e[1:]:
+            if isinstance(x, list):
+                yield from _calls_in(x)
+
+
+def body_cost(stmts, cost_of, mult=1):
+    """an upper estimate of the number of walkers one run of the body creates"""
+    total = 0
+    for st in stmts:
+        k = st[0]
+        if k == 'if':
+            total += mult * sum(cost_of(n) for n in _calls_in(st[1]))
+            total += body_cost(st[2], cost_of, mult)
+            for c, b in st[3]:
+                total += mult * sum(cost_of(n) for n in _calls_in(c)) + body_cost(b, cost_of, mult)
+            if st[4] is not None:
+                total += body_cost(st[4], cost_of, mult)
+        elif k == 'while':
+            bound = 4
+            c = st[1]
+            if c[0] == 'bin' and c[1] == 'and':
+                c = c[2]
+            if c[0] == 'bin' and c[1] == '<' and c[3][0] == 'int':
+                bound = c[3][1]
+            total += mult * (bound + 1) * sum(cost_of(n) for n in _calls_in(st[1]))
+            total += body_cost(st[2], cost_of, mult * bound)
+        elif k == 'foreach':
+            total += body_cost(st[3], cost_of, mult * 4)
+        elif k in ('select_from', 'select_rel'):
+            total += mult * 4 * sum(cost_of(n) for n in _calls_in(st[-1]))
+        else:
+            total += mult * sum(cost_of(n) for x in st[1:] if isinstance(x, list) for n in _calls_in(x))
+    return total
+
+
 def gen_model(rng, max_levels, body_stmts):
     """-> (spec for gen_bp_model, list of callable descriptions with their bodies, enums, consts)"""
     r = rng
@@ -135,9 +180,15 @@ def gen_model(rng, max_levels, body_stmts):
                       max_depth=r.choice([1, 1, 2]), params=sig['params'], calls=calls, self_cls=self_cls,
                       derived=[d for d in derived if attr is None or d[1] != attr],
                       allow_delete=False, allow_mutation=not pure, enums=enums, consts=gen_consts, schema=SCHEMA,
-                      ret_ty=sig['ret'], rec_call=rec, derived_attr=attr)
+                      ret_ty=sig['ret'], rec_call=rec, derived_attr=attr, create_in_loops=False,
+                      max_call_sites=r.choice([1, 2, 2, 3]))
         prog = g.gen_program()
         return prog, G.render(prog, g.uppercase)
+
+    costs = {}
+
+    def cost_of(name):
+        return costs.get(name, 0)
 
     for level in range(levels):
         lower = list(callables)
@@ -189,12 +240,33 @@ def gen_model(rng, max_levels, body_stmts):
                 if not (rec['pure'] or not sig['pure']):
                     rec = sig
             self_cls = sig['ns'] if sig['kind'] in ('instop', 'derived') else None
+            # derived attributes are read wherever an attribute is read: count them as cheap callees
             if sig['kind'] == 'derived':
                 body, text = make_body(sig, avail, None, self_cls, True, attr=sig['name'])
             else:
                 body, text = make_body(sig, avail, rec, self_cls, sig['pure'])
+            cost = 1 + body_cost(body, cost_of)
+            if sig.get('recursive'):
+                cost *= 4
+            if cost > COST_LIMIT:
+                # too many nested invocations: the same callable without calls
+                sig['recursive'] = False
+                sig['params'] = [p for p in sig['params']]
+                if sig['kind'] == 'derived':
+                    body, text = make_body(sig, [], None, self_cls, True, attr=sig['name'])
+                else:
+                    body, text = make_body(sig, [], None, self_cls, sig['pure'])
+                cost = 1 + body_cost(body, cost_of)
+            sig['cost'] = cost
             sig['body'] = body
             sig['text'] = text
+        for sig in new:
+            costs[sig['name']] = sig['cost']
+        if mutual:
+            # each of the two runs the other up to cnt times
+            both = sum(sig['cost'] for sig in new)
+            for sig in new:
+                costs[sig['name']] = both
         for sig in new:
             callables.append(sig)
             if sig['kind'] == 'derived':
